@@ -495,7 +495,7 @@ def check(prop, tier, seed):
             ctx.note('known finding %s was not reproduced by this run' % key)
 
     n_streams = max(1, len(ctx.streams))
-    obligations = len(ctx.theorems) + n_streams + len(open_keys)
+    obligations = len(ctx.theorems) + n_streams + len(listed)
     discharged = 0
     if ctx.build_ok and ctx.audit_ok:
         discharged += len(ctx.theorems)
